@@ -336,6 +336,10 @@ func GenSched(r *Rng, seed uint64, estSteps int, stallSites []int) SchedPlan {
 			sp.StallSite = stallSites[r.Intn(len(stallSites))]
 			sp.StallNth = r.Range(1, 6)
 			sp.StallLen = r.Range(3, 60)
+			if r.Bool(0.3) {
+				// a node stalled for a long time (whole phases pass meanwhile)
+				sp.StallLen = r.Range(200, 3000)
+			}
 		}
 	}
 	sp.Bias = []string{"fair", "fair", "eager", "lazy"}[r.Intn(4)]
